@@ -257,20 +257,22 @@ def u32 (x : Nat) : Nat := x % 2 ^ 32
 /-- salt `i` as a natural -/
 def salt (i : Nat) : Nat := (SALT.getD i 0).toNat
 
-/-- word `i` of `Block::mask(x)`: `1 << ((x.wrapping_mul(SALT[i])) >> 27)` -/
-def maskWord (x : Nat) (i : Nat) : Nat := 1 <<< (u32 (u32 x * salt i) >>> MASK_SHIFT)
+/-- bit position chosen in word `i` by `Block::mask(x)`: `(x.wrapping_mul(SALT[i])) >> 27` -/
+def maskBit (x : Nat) (i : Nat) : Nat := u32 (u32 x * salt i) >>> MASK_SHIFT
 
-/-- `Block::mask(x)` -/
+/-- word `i` of `Block::mask(x)`: `1 << y` -/
+def maskWord (x : Nat) (i : Nat) : Nat := 1 <<< maskBit x i
+
+/-- `Block::mask(x)`: `for i in 0..8 { result[i] = 1 << ((x.wrapping_mul(SALT[i])) >> 27) }` -/
 def blockMask (x : Nat) : List Nat := (List.range MASK_WORDS).map (maskWord x)
 
-/-- `Block::insert(hash)`: `self[i] |= mask[i]` -/
+/-- `Block::insert(hash)`: `for i in 0..8 { self[i] |= mask[i] }` -/
 def blockInsert (block : List Nat) (hash : Nat) : List Nat :=
-  List.zipWith (· ||| ·) block (blockMask hash)
+  (List.range BLOCK_WORDS).map (fun i => block.getD i 0 ||| (blockMask hash).getD i 0)
 
-/-- `Block::check(hash)`: every word has the mask bit -/
+/-- `Block::check(hash)`: `for i in 0..8 { if self[i] & mask[i] == 0 { return false } } true` -/
 def blockCheck (block : List Nat) (hash : Nat) : Bool :=
-  (List.zipWith (fun w m => w &&& m != 0) block (blockMask hash)).all id
-    && decide (block.length = MASK_WORDS)
+  (List.range BLOCK_WORDS).all (fun i => (block.getD i 0 &&& (blockMask hash).getD i 0) != 0)
 
 /-- `Sbbf::hash_to_block_index`: `((hash >> 32).saturating_mul(len)) >> 32`
 (the product of two numbers `< 2^32`… `len ≤ 2^22` never saturates) -/
@@ -290,14 +292,19 @@ def sbbfCheck (blocks : List (List Nat)) (hash : Nat) : Bool :=
 
 def zeroBlock : List Nat := List.replicate BLOCK_WORDS 0
 
-def blockOr (a b : List Nat) : List Nat := List.zipWith (· ||| ·) a b
+/-- `impl BitOr for Block`: word-wise OR -/
+def blockOr (a b : List Nat) : List Nat :=
+  (List.range BLOCK_WORDS).map (fun i => a.getD i 0 ||| b.getD i 0)
 
 /-- one output block of `fold_n`: OR of `group` adjacent blocks starting at `start` -/
 def mergedBlock (blocks : List (List Nat)) (start group : Nat) : List Nat :=
   ((List.range (group - 1)).map (fun j => blocks.getD (start + j + 1) zeroBlock)).foldl blockOr
     (blocks.getD start zeroBlock)
 
-/-- `Sbbf::fold_n(num_folds)` (requires `0 < num_folds`, `2^num_folds ≤ len`) -/
+/-- `Sbbf::fold_n(num_folds)` (requires `0 < num_folds`, `2^num_folds ≤ len`).  The Rust loop
+works in place; output block `i` is written after its inputs `i*group ..` (all `≥ i`) were
+read and inputs of later outputs lie at indices `≥ (i+1)*group > i`, so the in-place loop
+computes this function. -/
 def foldN (blocks : List (List Nat)) (numFolds : Nat) : List (List Nat) :=
   let group := 2 ^ numFolds
   (List.range (blocks.length / group)).map (fun i => mergedBlock blocks (i * group) group)
